@@ -220,10 +220,16 @@ func (v *vmCase) forceRescan() error {
 		}
 		time.Sleep(2 * time.Millisecond)
 	}
-	// clients that were told to stop must return (their Run obeys Stop by construction) and the
-	// manager must have taken them off its books (deleteCS), after which it rescans by itself.
-	// These are logical steps of the manager's own stop/restart machinery, so the harness waits
-	// for the events rather than for wall-clock time.
+	return v.waitStopped()
+}
+
+// waitStopped: clients that were told to stop must return (their Run obeys Stop by construction) and
+// the manager must have taken them off its books (deleteCS), after which it rescans by itself.
+// These are logical steps of the manager's own stop/restart machinery, so the harness waits
+// for the events rather than for wall-clock time.
+func (v *vmCase) waitStopped() error {
+	done := v.wd.Watch("manager:stopped-client-never-removed", v.wit(nil), 90*time.Second, true)
+	defer done()
 	for {
 		evs := v.mon.snapshot()
 		stopping := map[string]int{} // manager key -> clients stopped and not yet deleted
@@ -309,6 +315,15 @@ func (v *vmCase) quiesce() (rounds int, bad string, err error) {
 		if err := v.forceRescan(); err != nil {
 			return round, "", err
 		}
+		// clients constructed during this round may still have edge points queued from before their
+		// construction (the manager subscribes first); their barrier marker goes behind those
+		if err := v.drainClients(); err != nil {
+			return round, "", err
+		}
+		// ... and a client that was told to stop meanwhile is on its way out: judge when it is gone
+		if err := v.waitStopped(); err != nil {
+			return round, "", err
+		}
 		last = v.invariantI2()
 		if last == "" {
 			stable++
@@ -330,7 +345,7 @@ func (v *vmCase) quiesce() (rounds int, bad string, err error) {
 func runC07(tier string, _ []string) int {
 	c := vlib.NewCtx("C07", tier, "exploration")
 	vlib.SetPortBlock(7)
-	c.SetRule("per case a fresh instance and a real client.Manager for an instrumented client type (vNode, children vChild, parent types group + vParent) registered through the public API; a PRNG history of ~15 operations (create vNode under root / group / nested group / vParent, add and remove vChild, delete and undelete vNodes and the groups holding them, mirror, move, point updates, a vNode created with an undecodable configuration that is then corrected, delete / unrelated creation / undelete in quick succession) with 0-40 ms delays injected into the client's Run start / return and at the manager.beforeConstruct / cs.afterStop hook sites; after operations the harness forces a rescan (creating an unrelated node) and waits, in logical steps, for a scan that began afterwards; invariants: I1 never two clients of one placement at once (whole event log), I2 running set == live configured placements with children as constructed == live children (within 6 forced rescans, then stable for 2 more), I3 Manager.Stop stops every client and Run returns (in a quarter of the histories Stop comes right after the last operation, during the scans and restarts it caused). distinct = (operation kinds in the history, rounds needed, number of placements)")
+	c.SetRule("per case a fresh instance and a real client.Manager for an instrumented client type (vNode, children vChild, parent types group + vParent) registered through the public API; a PRNG history of ~15 operations (create vNode under root / group / nested group / vParent, add and remove vChild, delete and undelete vNodes and the groups holding them, mirror (of managed nodes and of the groups holding them), move, point updates, a vNode created with an undecodable configuration that is then corrected, delete / unrelated creation / undelete in quick succession) with 0-40 ms delays injected into the client's Run start / return and at the manager.beforeConstruct / cs.afterStop hook sites; after operations the harness forces a rescan (creating an unrelated node) and waits, in logical steps, for a scan that began afterwards; invariants: I1 never two clients of one placement at once (whole event log), I2 running set == live configured placements with children as constructed == live children (within 6 forced rescans, then stable for 2 more), I3 Manager.Stop stops every client and Run returns (in a quarter of the histories Stop comes right after the last operation, during the scans and restarts it caused). distinct = (operation kinds in the history, rounds needed, number of placements)")
 	c.Assume("the instrumented client's Run returns promptly when Stop is called; a configuration that stays undecodable is not generated (the property does not say what should run for it)")
 	nHist := c.N(100, 600)
 	maxDelay := 40
@@ -444,6 +459,18 @@ func runC07(tier string, _ []string) int {
 					if err != nil || e != "" {
 						opErr = fmt.Errorf("correcting point refused: %v %s", err, e)
 					}
+				}
+			case roll >= 88 && roll < 92 && len(containers) >= 3:
+				// a group (with whatever it holds) becomes reachable along a second path: the placements of the
+				// managed nodes inside it stay the same
+				op = "mirror-container"
+				grp, np := pick(containers[1:]), pick(containers)
+				if grp == np || g.HasEdge(np, grp) || g.WouldCycle(grp, np) {
+					continue
+				}
+				e, err := d.sendEdge(grp, np, data.Points{{Type: data.PointTypeTombstone, Time: d.now()}, {Type: data.PointTypeNodeType, Text: g.Types[grp]}})
+				if err != nil || e != "" {
+					opErr = fmt.Errorf("mirror container: %v %s", err, e)
 				}
 			case roll >= 92 && roll < 96 && len(vnodes) > 0:
 				// a node is deleted, something unrelated makes the manager scan while the old client is still
